@@ -135,6 +135,23 @@ def check_op(ctx, inst, ref):
         return
     key = "C08.%s" % rid.split()[0]
     names = ["p%d" % i for i in range(arity)]
+    # an operator that only forwards its operands, in order or permuted, to a private bignumber helper is judged on the helper
+    perm = list(range(arity))
+    for _ in range(3):
+        ex0 = common.exit_sites(P, f)
+        if len(ex0) == 1 and ex0[0][3][0] == "call" and isinstance(ex0[0][3][3], str) and not any(blk["term"]["k"] == "switch" for blk in f.body.blocks if not blk["cleanup"]):
+            g = P.fn(ex0[0][3][3]) or P.fn(generic_path(ex0[0][3][3]))
+            args = ex0[0][3][4]
+            if g is not None and g.crate == "bignumber" and g.body is not None and g.impl_trait is None and not g.derived and len(args) == arity and \
+                    all(a[0] == "param" and a[1] == f.path for a in args) and sorted(a[2] for a in args) == list(range(arity)):
+                perm = [perm[a[2]] for a in args]
+                f = g
+                continue
+        break
+    if perm != list(range(arity)):
+        build0 = build
+        build = lambda F, v, _b=build0, _p=list(perm): _b(F, [v[_p.index(i)] for i in range(len(_p))])
+        required = [(kind, (tuple(perm.index(j) for j in idx) if isinstance(idx, tuple) else perm.index(idx))) for kind, idx in required]
     exits = common.exit_sites(P, f)
     panics = panic_blocks(P, f)
     ok_all = True
@@ -279,11 +296,27 @@ def run(ctx):
     r1 = ctx.inst("C08.R1", "primitive discipline in bignumber: no wrapping/overflowing/saturating/truncating calls; narrowing casts only in split_u128 on (a >> 64) and (a & 0xFFFF_FFFF_FFFF_FFFF)", floor=30)
     width = {"u8": 8, "u16": 16, "u32": 32, "u64": 64, "u128": 128, "usize": 64, "i32": 32, "i64": 64, "i128": 128, "isize": 64, "i8": 8, "i16": 16}
     n_calls = 0
+    # free functions reachable only from the text-conversion impls belong to C18's scope, like those impls
+    def is_text_impl(g):
+        return bool(re.search(r"(FromStr|fmt::Display|Serialize|Deserialize|de::Visitor|TryFrom)$", (g.impl_trait or ""))) or g.impl_self == "std::string::String"
+    text_helpers = set()
+    changed = True
+    while changed:
+        changed = False
+        for g in P.fns.values():
+            if g.crate != "bignumber" or g.body is None or g.kind != "fn" or g.impl_trait is not None or g.path in text_helpers or "::tests::" in g.path:
+                continue
+            cs_ = [c for c, cb in P.callers(g.path) if "::tests::" not in c.path]
+            if cs_ and all(is_text_impl(c) or c.path in text_helpers or (c.kind == "closure" and c.parent and (P.fn(c.parent) is not None) and (is_text_impl(P.fn(c.parent)) or c.parent in text_helpers)) for c in cs_):
+                text_helpers.add(g.path)
+                changed = True
     for f in P.fns.values():
         if f.crate != "bignumber" or f.body is None or f.derived or "::tests::" in f.path or f.kind not in ("fn", "assoc_fn", "closure"):
             continue
         if re.search(r"(FromStr|fmt::Display|Serialize|Deserialize|de::Visitor|TryFrom)$", (f.impl_trait or "")) or f.impl_self == "std::string::String":
             continue   # text conversions: C18
+        if f.path in text_helpers:
+            continue   # private helpers used only by the text conversions: C18
         for b, p, fr, t in P.calls(f):
             if p is None:
                 continue
